@@ -588,6 +588,11 @@ def rule_run_skip_bound(col, facts):
                     where = f.loc(b["ts"])
     col.check(R, "peek_n:loop-bound", bad == 0,
               "%d of %d run-skipping loops do not compare the bare index with the buffer length (`index + 1 < len` stops one separator short of the end of the buffer)" % (bad, n), where)
+    if n == 0:
+        # no explicit comparison with the length at all: the run-skipping loops are written with `slc.get(i)`
+        # (bounded by construction) - nothing for this rule to decide
+        col.assumed("not-applied", "SIB-run:loop-bound", "the run-skipping loops do not compare an index with the buffer length (bounded `get`): loop-bound rule has nothing to decide")
+        return
     col.floor(R, "run-skipping loop bounds", n, 20)
 
 
